@@ -8,6 +8,22 @@ def _t(names, d):
     return None if d is None else tuple((int(d[nm]) if nm in d else None) for nm in names)
 
 
+def _canon_key(names, space):
+    k = 0
+    for nm in names:
+        k = 3 * k + (2 if nm not in space else int(space[nm]))
+    return k
+
+
+def _index_consistent(sd):
+    try:
+        from biobalm.space_utils import space_unique_key
+        want = {space_unique_key(sd.node_data(n)["space"], sd.network): n for n in sd.node_ids()}
+        return {int(k): int(v) for k, v in sd.node_indices.items()} == {int(k): int(v) for k, v in want.items()}
+    except Exception as e:
+        return "error: " + repr(e)[:80]
+
+
 def dump_sd(sd, names, attractors=True):
     nodes = []
     for i in sd.node_ids():
@@ -40,7 +56,11 @@ def dump_sd(sd, names, attractors=True):
     edges.sort(key=lambda e: (e["p"], e["c"]))
     dagnodes = sorted(int(x) for x in sd.dag.nodes())
     return {"nodes": nodes, "edges": edges, "len": len(sd), "depth": sd.depth(), "dag_nodes": dagnodes,
-            "index": sorted((int(k), int(v)) for k, v in sd.node_indices.items())}
+            # node_indices maps space_unique_key(space, sd.network) -> id; the keys depend on the order of sd.network's
+            # variables (which a pickle round trip may legitimately change), so what is recorded is the ids per key in
+            # the canonical order of the harness' names, plus whether the table is consistent with sd.network
+            "index": sorted((_canon_key(names, sd.node_data(int(v))["space"]), int(v)) for v in sd.node_indices.values()),
+            "index_consistent": _index_consistent(sd)}
 
 
 def guarded(f, *a, **k):
